@@ -123,6 +123,15 @@ CHECKS = {
             "executions produced.",
             "get_new on a Sid carrying a version while no version exists is not judged (statement silent).",
             "runtime monitors against a version-workflow reference model + ordering checker over publish histories"),
+    "C13": ("exploration", "3 C13",
+            "differential against fresh state: a pristine fork server per (hash seed x cache capacity) never calls spil itself; every random "
+            "history (<= 50 calls from a ~250 call alphabet covering every cached entry point, flag and configuration value, partial "
+            "generator consumption, creates and cache-overflowing fillers) runs in a forked child and EVERY position is compared with the same "
+            "call in a fresh child on the same data state; equivalent spellings (positional / keyword, str / Path, None / default config) are "
+            "compared; fresh results are compared across 8 hash seeds and with truly fresh interpreters; cache hits / evictions actually "
+            "observed are reported and required. Held on the histories produced.",
+            "file-system backed finds compared as sets; mutation of returned containers by client code is out of the alphabet.",
+            "differential runtime monitoring of histories against fresh processes (fork server), across hash seeds and cache capacities"),
 }
 
 NOT_YET = {}
